@@ -41,6 +41,8 @@ const (
 	keyPrefix                 = "/tables/"
 	sequenceKey               = keyPrefix + "sys/idseq"
 	tableIDsRangeStart uint64 = 10000
+	// defaultRestoreBatchSize is the size of a restore proposal when the in-memory log size is not limited.
+	defaultRestoreBatchSize uint64 = 4 * 1024 * 1024
 )
 
 func NewManager(nh *dragonboat.NodeHost, members map[uint64]string, store store, cfg Config) *Manager {
@@ -623,9 +625,17 @@ func (m *Manager) readIntoTable(id uint64, reader io.Reader) error {
 
 			batchCmd.Table = cmd.Table
 			batchCmd.LeaderIndex = cmd.LeaderIndex
-
-			if uint64(estimatedSize) < m.cfg.Table.MaxInMemLogSize/2 {
+			// Every record must end up in a batch (the command terminating a snapshot stream carries just the leader index).
+			if cmd.Kv != nil {
 				batchCmd.Batch = append(batchCmd.Batch, cmd.Kv)
+			}
+
+			// Keep batching until the half of the in-memory log size is reached (MaxInMemLogSize 0 means unlimited log).
+			maxBatchSize := m.cfg.Table.MaxInMemLogSize / 2
+			if maxBatchSize == 0 {
+				maxBatchSize = defaultRestoreBatchSize
+			}
+			if uint64(estimatedSize) < maxBatchSize {
 				continue
 			}
 		}
